@@ -319,7 +319,34 @@ func drawFloatCase(t *rapid.T) (Case, string) {
 	var box orb.Bound
 	var p ptGen
 	name := ""
-	switch rapid.IntRange(0, 6).Draw(t, "class") {
+	switch rapid.IntRange(0, 7).Draw(t, "class") {
+	case 7: // class M4: lattice sized box, some vertices 2^21..2^40 box sizes away (c +/- 2^k*(dx,dy), often as an
+		// opposite pair so that the segment between them passes through c obliquely): only PART of the case is rescaled
+		name = "float:small box, vertices 2^21..2^40 box sizes away"
+		x0, x1 := orderedInts(t, 0, 4, "bx")
+		y0, y1 := orderedInts(t, 0, 4, "by")
+		box = orb.Bound{Min: orb.Point{float64(x0), float64(y0)}, Max: orb.Point{float64(x1), float64(y1)}}
+		var pending *orb.Point
+		p = func(t *rapid.T) orb.Point {
+			if pending != nil {
+				q := *pending
+				pending = nil
+				return q
+			}
+			c := orb.Point{float64(rapid.IntRange(4*x0-6, 4*x1+6).Draw(t, "cx")) / 4, float64(rapid.IntRange(4*y0-6, 4*y1+6).Draw(t, "cy")) / 4}
+			if rapid.IntRange(0, 3).Draw(t, "nearvertex") == 0 {
+				return c
+			}
+			dx, dy := rapid.IntRange(-2, 2).Draw(t, "dx"), rapid.IntRange(-2, 2).Draw(t, "dy")
+			if dx == 0 && dy == 0 {
+				dx = 1
+			}
+			f := math.Ldexp(1, rapid.IntRange(21, 40).Draw(t, "k"))
+			if rapid.Bool().Draw(t, "pair") {
+				pending = &orb.Point{c[0] - f*float64(dx), c[1] - f*float64(dy)}
+			}
+			return orb.Point{c[0] + f*float64(dx), c[1] + f*float64(dy)}
+		}
 	case 5, 6: // a small box far from the origin (map tile in projected metres), paths that cross its
 		// edges at shallow angles: the cut must be as accurate as a well-conditioned evaluation makes it
 		name = "float:small box far from the origin, shallow crossings"
